@@ -93,6 +93,11 @@ class FakeManager:
         self.made += 1
         self.conn = c
         self.w.sim.ev("l2_selected", self.name)
+        # like the real Manager's replay of its outbound queue: records go
+        # out in the very turn the connection is selected (on the Leader:
+        # right behind its KCM, before the Follower has selected)
+        for r in getattr(self, "early", ()):
+            c.send_record(r)
 
     def connector_connection_lost(self):
         self.lost += 1
@@ -295,6 +300,14 @@ def run_one(seed, tape, opts):
                 if end.link.tamper is None:
                     end.link.tamper = tam
     sim.on_end_made = end_made
+    early = {"l2f": [], "f2l": []}
+    if not opts.get("fixed") and not opts.get("wrong_psk"):
+        for d, mg in (("l2f", ML), ("f2l", MF)):
+            early[d] = [gen_record(tape, 50 + i)
+                        for i in range(tape.choose(4, "nearly"))]
+            mg.early = list(early[d])
+        if early["l2f"] or early["f2l"]:
+            sim.note("probe.records_sent_in_the_selection_turn")
     CL.start()
     CF.start()
     # strangers dial the listeners
@@ -335,9 +348,9 @@ def run_one(seed, tape, opts):
             recs = {"l2f": list(FIXED), "f2l": list(reversed(FIXED))}
         else:
             for d in recs:
-                recs[d] = [gen_record(tape, i)
-                           for i in range(tape.choose(8, "nrec"))]
-        sent = {"l2f": 0, "f2l": 0}
+                recs[d] = early[d] + [gen_record(tape, i)
+                                      for i in range(tape.choose(8, "nrec"))]
+        sent = {"l2f": len(early["l2f"]), "f2l": len(early["f2l"])}
         conns = {"l2f": ML.conn, "f2l": MF.conn}
 
         def app_events():
